@@ -213,6 +213,7 @@ func checkC04(w *World, r *Report) {
 		r.undecided("C04.try-barrier", nil, "evaluator model", 0, m.why)
 	}
 	a := newAudit(w, e, r, "C04.site")
+	a.cmp = true
 	a.exempt = exemptionsC04
 	entries := evalEntries(w)
 	for i, f := range entries {
@@ -316,6 +317,7 @@ func checkC05(w *World, r *Report) {
 	guardRule(w, r, e, "C05.env-lock", w.guardRows()[2])
 	r.floor("C05.env-lock", "accesses to Env.data and calls of lock-required methods", r.count("C05.env-lock"), 10)
 	a := newAudit(w, e, r, "C05.site")
+	a.cmp = true
 	a.exempt = exemptionsC05
 	var entries []*ssa.Function
 	for _, n := range []string{"READ", "READWithPreamble", "PRINT", "AddPreamble"} {
